@@ -404,6 +404,38 @@ def _task_handles(task):
                 if why:
                     t.violation({"kind": "termination" if end != "stop" else "framing", "source": f"file-handle:{opener}", "end": str(end)[:40]},
                                 {"handles": True, "opener": opener, "n": n, "k": k, "cut": cut, "r": r}, observed={"n_items": len(got), "end": str(end)[:80]}, note=why)
+    # a file that grows while it is being framed: when the first packet is asked for, the file holds it and PART of the second; before the next
+    # request the writer appends the rest and further complete packets; the reader frames until reads return nothing
+    if n <= 40:
+        for r in (None, 8, 4096):
+            for part in (1, 7, len(recs[1]) - 1):
+                path = os.path.join(work, f"c10g_{os.getpid()}.bin")
+                try:
+                    with case_alarm(60), observed_warnings():
+                        with open(path, "wb", buffering=0) as wr:
+                            wr.write(recs[0] + recs[1][:part])
+                            with open(path, "rb") as rd:
+                                g = ccsds_generator(rd, buffer_read_size_bytes=r, skip_header_bytes=k)
+                                first = [bytes(next(g))]
+                                wr.write(recs[1][part:] + b"".join(recs[2:]))
+                                items, end = pull(g, horizon=n + 3)
+                    got = first + [bytes(i) for i in items]
+                    why = _judge(got, end if isinstance(end, str) else end[0], b"".join(recs), k)
+                except CaseTimeout:
+                    got, end, why = [], "timeout", "timeout"
+                except StopIteration:
+                    got, end, why = [], "stop", "no packet at all"
+                finally:
+                    try:
+                        os.unlink(path)
+                    except OSError:
+                        pass
+                t.evals += 1
+                t.nontrivial += 1
+                t.outcomes[f"handle:grown-between-requests:{'ok' if why is None else 'bad'}"] += 1
+                if why:
+                    t.violation({"kind": "termination" if end != "stop" else "framing", "source": "file-handle:grown-between-requests", "end": str(end)[:40]},
+                                {"handles": True, "opener": "grown-between-requests", "n": n, "k": k, "cut": part, "r": r}, observed={"n_items": len(got), "end": str(end)[:80]}, note=why)
     return t
 
 
@@ -513,7 +545,7 @@ def run(ctx):
         "programs": tally.programs,
         "exhaustive": True,
         "bound": (f"every sequence of 1..{max_len} palette packets x prefix lengths {ks} cut at EVERY byte offset, for bytes, "
-                  "BytesIO with every read size (and with show_progress=True), a gzip file object, a BufferedReader over a 3-bytes-per-read raw stream and one over a device-like raw stream whose seek() always answers 0 (read sizes None, 7), read/write file handles as a producer leaves them (w+b, TemporaryFile, r+b appended, the generator object created before the writes / before the caller reads from the handle; 3..400 records written one write() each and not flushed; whole and cut by 1 or 9 bytes), file objects holding complete streams that the caller closes / rewinds after the first / the last packet (default read size, buffer-trim literal as shipped and rewritten to 0 and 17), and a scripted socket where the peer may close at every recv() choice point (also with show_progress=True, and as a message-preserving socket whose messages fit the read size, on the streams of <= 2 packets) "
+                  "BytesIO with every read size (and with show_progress=True), a gzip file object, a BufferedReader over a 3-bytes-per-read raw stream and one over a device-like raw stream whose seek() always answers 0 (read sizes None, 7), read/write file handles as a producer leaves them (w+b, TemporaryFile, r+b appended, the generator object created before the writes / before the caller reads from the handle; a file that grows between two requests, measured part-way through a packet; 3..400 records written one write() each and not flushed; whole and cut by 1 or 9 bytes), file objects holding complete streams that the caller closes / rewinds after the first / the last packet (default read size, buffer-trim literal as shipped and rewritten to 0 and 17), and a scripted socket where the peer may close at every recv() choice point (also with show_progress=True, and as a message-preserving socket whose messages fit the read size, on the streams of <= 2 packets) "
                   "under every fragmentation; all byte strings of length <= 2; all strings of length <= "
                   f"{8 if ctx.quick else 9} over {{00,01,FF}}; both ccsds_generator and packet_generator(header-only definition); in a second interpreter started with -bb: every sequence of <= 2 packets cut at every offset through bytes, BytesIO, a closing socket and a definition's generator"),
         "rule": ("one evaluation = one complete execution of a generator over one (stream, cut point / close point, source, read size, "
